@@ -52,6 +52,7 @@ func classify(v any) string {
 }
 
 func panicOp(c *Ctx, op string) {
+	c.Begin(op)
 	f := strings.Fields(op)
 	a := kvArgs(f)
 	apiKind, class := f[1], f[3]
